@@ -664,3 +664,56 @@ func ZZ_C09_FailedLoadVsWrite() {
 	}
 	vAssert(c.cache.singleflight.getCall(1) == nil, "c09f.no_inflight_record_left")
 }
+
+func init() { vRegister("ZZ_C08_NonWritingOpDuringLoad", ZZ_C08_NonWritingOpDuringLoad) }
+
+// ZZ_C08_NonWritingOpDuringLoad: while a load of key 1 is in flight, the other thread performs an operation that does
+// not write, invalidate or evict the key (a cancelled Compute / ComputeIfAbsent, ComputeIfPresent on the absent key,
+// lookups, SetExpiresAfter on the absent key) and then calls Get itself: that Get joins the load in flight — loader
+// invocations for the key never overlap — and receives its result.
+func ZZ_C08_NonWritingOpDuringLoad() {
+	op := vChoice("op", 6)
+	vScenario([]string{"ComputeCancel", "ComputeIfAbsentCancel", "ComputeIfPresent", "GetIfPresent", "GetEntryQuietly", "SetExpiresAfter"}[op])
+	c := Must(&Options[int, int]{Logger: &NoopLogger{}})
+	clk := &zzTick{}
+	var ivals []zzIval
+	loader := LoaderFunc[int, int](func(ctx context.Context, key int) (int, error) {
+		in := clk.now()
+		idx := 0
+		vAtomic(func() { ivals = append(ivals, zzIval{in: in}); idx = len(ivals) - 1 })
+		vYield()
+		out := clk.now()
+		vAtomic(func() { ivals[idx].out = out })
+		return 500 + idx, nil
+	})
+	var av, bv int
+	var aerr, berr error
+	A := func() { av, aerr = c.Get(context.Background(), 1, loader) }
+	B := func() {
+		switch op {
+		case 0:
+			c.Compute(1, func(old int, found bool) (int, ComputeOp) { return 0, CancelOp })
+		case 1:
+			c.ComputeIfAbsent(1, func() (int, bool) { return 0, true })
+		case 2:
+			c.ComputeIfPresent(1, func(old int) (int, ComputeOp) { return old, CancelOp })
+		case 3:
+			c.GetIfPresent(1)
+		case 4:
+			c.GetEntryQuietly(1)
+		case 5:
+			c.SetExpiresAfter(1, 1000)
+		}
+		bv, berr = c.Get(context.Background(), 1, loader)
+	}
+	vPar(A, B)
+	for i := 0; i < len(ivals); i++ {
+		for j := i + 1; j < len(ivals); j++ {
+			vAssert(ivals[i].out < ivals[j].in || ivals[j].out < ivals[i].in, "c08n.loader_invocations_do_not_overlap")
+		}
+	}
+	vAssert(aerr == nil && berr == nil, "c08n.every_caller_gets_a_value")
+	vAssert(av >= 500 && av < 500+len(ivals) && bv >= 500 && bv < 500+len(ivals), "c08n.callers_receive_a_loaded_value")
+	vAssert(len(ivals) >= 1 && len(ivals) <= 2, "c08n.loader_invocation_count")
+	vAssert(c.cache.singleflight.getCall(1) == nil, "c08n.no_inflight_record_left")
+}
